@@ -41,6 +41,7 @@ import Ctrmml.Proofs.MdKeys
 import Ctrmml.Proofs.TickLoop
 import Ctrmml.Proofs.MdUpd
 import Ctrmml.Proofs.MdSched
+import Ctrmml.Proofs.MdTable
 import Ctrmml.Spec.Schedule
 namespace Ctrmml.C07
 open Ctrmml Ctrmml.MdDriver Tables
@@ -493,6 +494,71 @@ theorem C07_schedule_fm_partial (d : Data) (song : Song) (tags : Vgm.Tags) (ops 
     (TickStream.hooks_of song root (fun t => t ≠ ev_SLUR) (by decide) hnoslur) _ hrel k
     (fun j hj => h6 j (by omega))
 
+/-- **Mid-song tempo in one statement: the table of ticks per update** (partial: one channel
+track — of any kind, FM or PSG, slurs allowed).  In a successful export of a song with one channel
+track, for every update `k = 0 … K+1`: the driver's tick counter, tempo accumulator and tempo are
+`tickTable m0 k = (N_k, c_k, δ_k)`, computed from the tick stream alone: `N_0 = 0`, `c_0 = 0`,
+`δ_0 = 128` (`play_song`); update `k` plays `n_k = (c_k + δ_k + 1) div 128` ticks,
+`c_{k+1} = (c_k + δ_k + 1) mod 128`, and `δ_{k+1}` is the LAST tempo command among the events the
+list machine delivers in the ticks `N_k … N_k + n_k − 1` (`TEMPO p` ↦ `p mod 256`, `TEMPO_BPM b` ↦
+`bpm_to_delta b`), else `δ_k`: a tempo command takes effect from the update AFTER the one that
+reads it — at any tick, first or last of its update (generator family `tempo-boundary`).
+Between tempo commands `C07_tempo_closed_form` gives `N` in closed form.  Extra hypothesis w.r.t.
+the full statement: one channel track (with several, the commands of all channels of an update
+compete in track order — decided by the oracle's `frameTable`). -/
+theorem C07_tempo_table_partial (d : Data) (song : Song) (tags : Vgm.Tags) (ops : List Vgm.Op)
+    (id : Nat) (root : List Event)
+    (hexp : exportOps d song tags = .ok ops) (hsingle : SingleTrack song id root)
+    (hs : Refine.SongNoEnd song) (hr : Tree.NoEnd root) (hplain : TickStream.PlainCode song root)
+    (items : List Expand.Item) (hperf : Expand.perf song root = .ok items)
+    (hfuel : ∀ k outs, Refine.stepsCore song root k ⟨.root, 0, []⟩ = .ok (⟨.root, root.length, []⟩, outs) →
+      2 * k + 2 ≤ PlayerCh.settleFuel)
+    (hseg : ∀ k, TickStream.SegTop song root k ⟨.root, 0, []⟩) :
+    ∃ K L, ops = ctorPokes ++ (playSong d song).2 ++ L ++ [Vgm.Op.stop, Vgm.Op.writeTag tags] ∧
+      stamps 0 L = schedLog d song (playSong d song).1 (K + 1) ∧ delaySum L = 735 * K ∧
+      ∀ k, k ≤ K + 1 →
+        ((updRun d song k (playSong d song).1).ticks, (updRun d song k (playSong d song).1).tempoCounter,
+          (updRun d song k (playSong d song).1).g.tempoDelta) = tickTable (TickStream.lxInit items) k := by
+  obtain ⟨K, L, h1, h2, h3, _, _, h6⟩ := exportOps_log d song tags ops hexp
+  have hB : 2 * 49999 + 2 ≤ PlayerCh.settleFuel := by unfold PlayerCh.settleFuel; decide
+  have hrel := TickStream.relX_init song root hs hr items hperf 49999
+    (fun k outs h => by have := hfuel k outs h; unfold PlayerCh.settleFuel at this; omega) hseg
+  exact ⟨K, L, h1, h2, h3, fun k hk => single_table d song root id hsingle _ 49999 (TickStream.endOK_root song root) hB
+    (TickStream.plainHooks_of song root hplain) _ hrel k (fun j hj => h6 j (by omega))⟩
+
+/-- **The schedule of an FM channel with mid-song tempo changes, from the tick stream alone.**
+`C07_schedule_fm_partial` with `N_k` replaced by the table of `C07_tempo_table_partial`: for every
+update `k` of the log, the key-register writes at sample `735·k` are the key-off / key-on words
+the events of the ticks `N_k … N_{k+1} − 1` call for, `N = tickTable`. -/
+theorem C07_schedule_fm_tempo_partial (d : Data) (song : Song) (tags : Vgm.Tags) (ops : List Vgm.Op)
+    (id : Nat) (root : List Event) (hid : id < 6)
+    (hexp : exportOps d song tags = .ok ops) (hsingle : SingleTrack song id root)
+    (hs : Refine.SongNoEnd song) (hr : Tree.NoEnd root) (hplain : TickStream.PlainCode song root)
+    (hnoslur : ∀ tr e, e ∈ codeOf song root tr → e.type ≠ ev_SLUR)
+    (items : List Expand.Item) (hperf : Expand.perf song root = .ok items)
+    (hfuel : ∀ k outs, Refine.stepsCore song root k ⟨.root, 0, []⟩ = .ok (⟨.root, root.length, []⟩, outs) →
+      2 * k + 2 ≤ PlayerCh.settleFuel)
+    (hseg : ∀ k, TickStream.SegTop song root k ⟨.root, 0, []⟩) :
+    ∃ K L, ops = ctorPokes ++ (playSong d song).2 ++ L ++ [Vgm.Op.stop, Vgm.Op.writeTag tags] ∧
+      stamps 0 L = schedLog d song (playSong d song).1 (K + 1) ∧ delaySum L = 735 * K ∧
+      ∀ k, k ≤ K →
+        FmKeySched (id / 3) (id % 3) (TickStream.lxInit items) (tickTable (TickStream.lxInit items) k).1
+          (tickTable (TickStream.lxInit items) (k + 1)).1 (keysV (updOps d song (playSong d song).1 k)) := by
+  obtain ⟨K, L, h1, h2, h3, _, _, h6⟩ := exportOps_log d song tags ops hexp
+  have hB : 2 * 49999 + 2 ≤ PlayerCh.settleFuel := by unfold PlayerCh.settleFuel; decide
+  have hrel := TickStream.relX_init song root hs hr items hperf 49999
+    (fun k outs h => by have := hfuel k outs h; unfold PlayerCh.settleFuel at this; omega) hseg
+  refine ⟨K, L, h1, h2, h3, fun k hk => ?_⟩
+  have hpl := TickStream.plainHooks_of song root hplain
+  have t0 := single_table d song root id hsingle _ 49999 (TickStream.endOK_root song root) hB hpl _ hrel k
+    (fun j hj => h6 j (by omega))
+  have t1 := single_table d song root id hsingle _ 49999 (TickStream.endOK_root song root) hB hpl _ hrel (k + 1)
+    (fun j hj => h6 j (by omega))
+  rw [← t0, ← t1]
+  exact single_fm_keys d song root id hid hsingle _ 49999 (TickStream.endOK_root song root) hB hpl
+    (TickStream.hooks_of song root (fun t => t ≠ ev_SLUR) (by decide) hnoslur) _ hrel k
+    (fun j hj => h6 j (by omega))
+
 /-! ### non-vacuity of the whole-log theorems -/
 /-- FM channel A: `note 40 (on 2, off 1)  L  note 42 (on 2, off 2)` -/
 def exLoopRoot : List Event := [⟨ev_NOTE, 40, 2, 1⟩, ⟨ev_SEGNO, 0, 0, 0⟩, ⟨ev_NOTE, 42, 2, 2⟩]
@@ -540,6 +606,14 @@ example :
       _ rfl (by unfold PlayerCh.settleFuel; decide)
   · exact TickStream.segTop_one_segno exLoopSong exLoopRoot hall.1 [⟨ev_NOTE, 40, 2, 1⟩] [⟨ev_NOTE, 42, 2, 2⟩] ⟨ev_SEGNO, 0, 0, 0⟩ rfl
       hall.2 (by decide) [Expand.item ⟨ev_NOTE, 40, 2, 1⟩] [Expand.item ⟨ev_NOTE, 42, 2, 2⟩] rfl rfl (by decide) (by decide)
+
+/-- the table of the corpus song `T255, 3.3 note, T10, 2.2 note, BPM 200, 6.6 note` (channel A): the native tempo
+255 read in update 0 is in force from update 1 (two ticks per update), tempo 10 read at tick 6 (update 3) from
+update 4 on -/
+example :
+    ((List.range 6).map fun k => tickTable (TickStream.lxInit
+      ([⟨ev_TEMPO, 255, 0, 0⟩, ⟨ev_NOTE, 40, 3, 3⟩, ⟨ev_TEMPO, 10, 0, 0⟩, ⟨ev_NOTE, 41, 2, 2⟩].map Expand.item)) k) =
+    [(0, 0, 128), (1, 1, 255), (3, 1, 255), (5, 1, 255), (7, 1, 10), (7, 12, 10)] := by decide
 
 /-- the log of this song, update by update (default tempo: one tick per update): key-off and
 key-on of note 40 in update 0, its key-off in update 2, the loop marker, key-off and key-on of
